@@ -15,7 +15,36 @@ def val(i):
 
 
 @st.composite
+def lock_user_cases(draw):
+    start = draw(st.sampled_from([0, 2.5]))
+    pre = draw(st.sampled_from([0, 0.5]))
+    hold = lambda name, d, v: {'name': name, 'steps': [{'op': 'lock', 'i': 0, 'body': [{'op': 'sleep', 'd': d}]}, {'op': 'return', 'v': v}]}  # noqa
+    users = [hold('h%d' % j, draw(st.sampled_from([5, 7])), 50 + j) for j in range(draw(st.integers(2, 3)))]
+    if draw(st.booleans()):
+        # ... one of them asks a little later (it is queued, not designated, when the abort comes)
+        users[-1]['steps'].insert(0, {'op': 'sleep', 'd': 0.25})
+    quick = {'name': 'q', 'steps': [{'op': 'sleep', 'd': 1}, {'op': 'return', 'v': 3}]}
+    kind = draw(st.sampled_from(['first', 'first', 'collect']))
+    if kind == 'first':
+        acts = users + [quick]
+        acts = [acts[i] for i in draw(st.permutations(list(range(len(acts)))))] if draw(st.booleans()) else acts
+        a = {'op': 'first', 'acts': acts, 'count': 1}
+    else:
+        quick['steps'][-1] = {'op': 'raise', 'eid': 1, 'cls': 'K'}
+        acts = users + [quick]
+        a = {'op': 'scope', 'catch': True, 'children': [], 'body': [{'op': 'collect', 'acts': acts}]}
+    b = {'op': 'collect', 'acts': [hold('d', 1, 11), hold('e', 1, 12)]}
+    steps = ([{'op': 'sleep', 'd': pre}] if pre else []) + [a, b, {'op': 'sleep', 'd': 1}]
+    prog = {'start': start, 'objs': {'locks': 1}, 'roots': [{'name': 'r0', 'steps': [
+        {'op': 'scope', 'name': 'S', 'catch': True, 'body': [], 'children': [
+            {'name': 'cl', 'steps': steps}, {'name': 'ot', 'steps': [{'op': 'sleep', 'd': 1}, {'op': 'sleep', 'd': 1}]}]}]}]}
+    return {'prog': prog, 'faults': [], 'lock_users': {'done_at': start + pre + 1 + 2, 'values': [11, 12], 'idx': [len(steps) - 2]}}
+
+
+@st.composite
 def cases(draw, tier):
+    if draw(st.integers(0, 15)) == 0:
+        return draw(lock_user_cases())
     big = tier == 'thorough'
     n = draw(st.integers(0, 8))
     kind = draw(st.sampled_from(['collect', 'first', 'first']))
@@ -390,7 +419,30 @@ class C16(Check):
     def strategy(self, tier):
         return cases(tier)
 
+    def lock_case(self, case):
+        """activities of first() / collect() that hold or wait for a lock when they are aborted leave it free: a later
+        collect() over activities that use the lock one after the other returns on time"""
+        out = Outcome()
+        out.evals = 1
+        it, oc, exc, p = execute(case['prog'], Probe(b_step=4000, b_total=40000))
+        if oc != 'ok':
+            out.fail('run_outcome', 'lock_users:%s:%s' % (oc, type(exc).__name__), 'run() ended with %s %r' % (oc, exc))
+            return out
+        want_t, want, idx = case['lock_users']['done_at'], case['lock_users']['values'], tuple(case['lock_users']['idx'])
+        got = [e for e in it.log if e[0] <= it.end_seq and e[1] == 'cl' and tuple(e[2]) == idx and e[3] == 'got']
+        if not got:
+            out.fail('collect', 'lock_users:no_result', 'collect() over users of a lock that aborted activities of an earlier '
+                     'first()/collect() had held or waited for never returned (expected %r at %r)' % (want, want_t))
+        elif got[0][5] != want or got[0][4] != want_t:
+            out.fail('collect', 'lock_users:wrong_result_or_time', 'collect() returned %r at %r, expected %r at %r' % (
+                got[0][5], got[0][4], want, want_t))
+        out.nontrivial = True
+        out.features.add('aborted_lock_users')
+        return out
+
     def run_case(self, case, tier='quick'):
+        if 'lock_users' in case:
+            return self.lock_case(case)
         out = Outcome()
         mk = lambda: Probe(b_step=4000, b_total=40000)  # noqa
         it, oc, exc, p = execute(case['prog'], mk())
